@@ -81,6 +81,7 @@ func (eng *Engine) verifyFunc(key string) *FuncReport {
 		fr.args = append(fr.args, v)
 	}
 	fr.entry = st
+	ex.topFrame = fr
 	ex.assumeInvariants(st)
 	for j, r := range c.Requires {
 		g, err := ex.compileBool(fr, st, st, r.E, false)
